@@ -320,13 +320,16 @@ def accessor_table(mod: Module) -> Dict[str, Tuple[int, int]]:
     return out
 
 
-def writer_bits(ex: Extractor, e: ast.AST, field: str, acc: Dict[str, Tuple[int, int]]) -> Optional[Tuple[int, int]]:
+def writer_bits(ex: Extractor, e: ast.AST, field: str, acc: Dict[str, Tuple[int, int]], defs: Optional[Dict[str, ast.AST]] = None, depth: int = 0) -> Optional[Tuple[int, int]]:
     """(mask, shift) of the record field carried by a packed expression; (0, 0) for the constant 0; None if the field is not involved"""
     if isinstance(e, ast.IfExp):
         t = ex.ev(e.test)
         if t is UNKNOWN:
             raise AnalysisError(f'line {e.lineno}: conditional packed value `{U(e)}` is not decided by the configuration')
-        return writer_bits(ex, e.body if t else e.orelse, field, acc)
+        return writer_bits(ex, e.body if t else e.orelse, field, acc, defs, depth)
+    if isinstance(e, ast.Name) and defs and e.id in defs and depth < 3:
+        # a local assigned once (`flags_prim = prop.flags.value_prim`) stands for its definition
+        return writer_bits(ex, defs[e.id], field, acc, defs, depth + 1)
     if isinstance(e, ast.Constant) and e.value == 0:
         return (0, 0)
     if isinstance(e, ast.Attribute) and isinstance(e.value, ast.Attribute) and e.value.attr == field and isinstance(e.value.value, ast.Name):
@@ -415,7 +418,7 @@ def split_field_check(ctx: Any, rule: str, mod: Module, label: str, exr: Extract
             wexpr = wrec[slot].expr
             if wexpr is None:
                 raise AnalysisError(f'{label}: writer expression for slot {slot} is not syntactic')
-            wb = writer_bits(exw, wexpr, field, acc)
+            wb = writer_bits(exw, wexpr, field, acc, single_defs(wnode) if isinstance(wnode, (ast.FunctionDef, ast.AsyncFunctionDef)) else None)
             if wb is None:
                 problems.append(f'slot {slot} is read into {var} but the writer packs `{U(wexpr)[:50]}` there')
                 continue
